@@ -2,10 +2,13 @@
 C10 — Fly.io caveats and request well-formedness follow the documented rules.
 
 Property theorems only.  Model functions: `prohibits` per caveat kind, `Flyio.validate`
-(= `(*flyio.Access).Validate`), `Flyio.permittedRoles` (= `GetPermittedRoles`); tie: family `flyio`.
+(= `(*flyio.Access).Validate`), `Flyio.permittedRoles` (= `GetPermittedRoles`); tie: family `flyio`,
+and for the tables the model carries (`MemberFeatures`, role bits, action bits, the litefs-cloud feature
+name) the constants regenerated from /repo on every run (`tables_match_generated`).
 -/
 import Macaroon.Lemmas.Monotone
 import Macaroon.Caveat.Spec
+import Macaroon.Generated.Consts
 
 namespace Macaroon.Props.C10
 open Macaroon Macaroon.Lemmas
@@ -214,6 +217,29 @@ theorem preFix_overflow_witness :
     preFixValidityWindow 0 9223372036854775807 (Access.bare 1700000000 0) ≠ [] := by
   decide
 
+/-! ### the tables of the model are the tables of the code (regenerated on every run) -/
+
+/-- GENERATED-FACT OBLIGATION.  `Flyio.memberFeatures` (what `permittedRoles_spec` is stated over) is
+`flyio.MemberFeatures` as extracted from /repo, entry for entry; the role bits, the action bits and the
+feature name that `Access.Validate` demands for clusters are the Go constants.  A code change to any
+of them breaks the build here. -/
+theorem tables_match_generated :
+    Flyio.memberFeatures.map (fun e => (e.1, e.2.toNat)) = Generated.memberFeatures ∧
+    Generated.natConsts.lookup "flyio.RoleMember" = some Flyio.roleMember.toNat ∧
+    Generated.natConsts.lookup "flyio.RoleAdmin" = some Flyio.roleAdmin.toNat ∧
+    Generated.natConsts.lookup "resset.ActionRead" = some Action.read.toNat ∧
+    Generated.natConsts.lookup "resset.ActionWrite" = some Action.write.toNat ∧
+    Generated.natConsts.lookup "resset.ActionCreate" = some Action.create.toNat ∧
+    Generated.natConsts.lookup "resset.ActionDelete" = some Action.delete.toNat ∧
+    Generated.natConsts.lookup "resset.ActionControl" = some Action.control.toNat ∧
+    Generated.natConsts.lookup "resset.ActionAll" = some Action.all.toNat ∧
+    Generated.natConsts.lookup "resset.ActionNone" = some Action.none.toNat ∧
+    (Generated.strConsts.lookup "flyio.FeatureLFSC").map Bytes.ofString = some Flyio.featureLFSC := by
+  refine ⟨by decide, by decide, by decide, by decide, by decide, by decide, by decide, by decide, by decide,
+    by decide, ?_⟩
+  have h : Generated.strConsts.lookup "flyio.FeatureLFSC" = some "litefs-cloud" := by decide
+  rw [h]; rfl
+
 /-- A request is well-formed only if it names an organization, names the parent of every child
 resource it names, and names at most one resource per hierarchy level. -/
 theorem access_wf_iff (f : Flyio.Req) :
@@ -231,6 +257,36 @@ theorem access_wf_iff (f : Flyio.Req) :
   cases org <;> cases app <;> cases feature <;> cases storageObject <;> cases machine <;> cases volume <;>
     cases appFeature <;> cases cluster <;> cases command <;> cases machineFeature <;>
     simp [Flyio.cnt] <;> (try (split <;> simp_all))
+
+/-! ### non-vacuity / sanity -/
+
+section examples
+
+def rq : Flyio.Req :=
+  { Flyio.Req.zero with action := 1, org := some 7, app := some 3, machine := some [109], command := some [[108, 115], [45, 108]] }
+def acc : Access := rq.toAccess 1700000000 0
+
+example : Flyio.validate rq = [] := by decide
+example := (access_wf_iff rq).mp (by decide)
+example : Flyio.validate { rq with app := none } = [.resUnspecified] := by decide
+example : Flyio.validate { rq with machineFeature := some [1] } = [.resMutEx] := by decide
+example := (organization_iff (B := Bytes) 7 1 acc).mp (by decide)
+example := (organization_iff (B := Bytes) 0 31 acc).mp (by decide)
+example : prohibits (.organization 8 31 : Cav Bytes) acc = [.forResource] := by decide
+example := ((resource_caveats_iff (B := Bytes) acc).1 [(3, 1)]).mp (by decide)
+example := (commands_iff (B := Bytes) (some [⟨some [[108, 115]], false⟩]) acc).mp (by decide)
+example : prohibits (.commands (some [⟨some [[108, 115]], true⟩]) : Cav Bytes) acc = [.forResource] := by decide
+example := (allowedRoles_iff (B := Bytes) 1 acc).mp (by decide)
+example := (isMember_iff (B := Bytes) acc).mp (by decide)
+example := (permittedRoles_spec (some (Bytes.ofString "billing")) 2).2
+example := (mutations_iff (B := Bytes) (some [[1]]) { acc with mutation := some (some [1]) }).mp (by decide)
+example := (fromMachine_iff (B := Bytes) [5] { acc with sourceMachine := some (some [5]) }).mp (by decide)
+example := (flySrc_iff (B := Bytes) [] [] [5] { acc with sourceMachine := some (some [5]) }).mp (by decide)
+example := (validityWindow_iff (B := Bytes) 1600000000 1700000000 acc).mp (by decide)
+example : prohibits (.validityWindow 1600000000 1700000000 : Cav Bytes) { acc with nowNsec := 1 } = [.unauthorized] := by decide
+example := (validityWindow_iff (B := Bytes) 0 9223372036854775807 acc).mp (by decide)
+
+end examples
 
 end Macaroon.Props.C10
 
@@ -250,3 +306,4 @@ end Macaroon.Props.C10
 #print axioms Macaroon.Props.C10.validityWindow_iff
 #print axioms Macaroon.Props.C10.preFix_overflow_witness
 #print axioms Macaroon.Props.C10.access_wf_iff
+#print axioms Macaroon.Props.C10.tables_match_generated
